@@ -15,6 +15,7 @@ structure KStr.WF (s : KStr) : Prop where
   blo : isBoundary s.buf s.lo = true
   bhi : isBoundary s.buf s.hi = true
   full : s.form = .full → s.lo = 0 ∧ s.hi = s.buf.length
+  fullV : s.form = .fullV → s.lo = 0 ∧ s.hi = s.buf.length
   slice16 : s.form = .slice → s.hi ≤ u16max
 
 theorem KStr.bytes_length {s : KStr} (h : s.WF) : s.bytes.length = s.len := by
@@ -28,7 +29,11 @@ theorem KStr.WF.bytes_valid {s : KStr} (h : s.WF) : validUtf8 s.bytes = true :=
 
 theorem KStr.ofString_wf {bs : Bytes} (h : validUtf8 bs = true) : (KStr.ofString bs).WF :=
   ⟨Nat.zero_le _, Nat.le_refl _, h, isBoundary_zero _, isBoundary_length _, fun _ => ⟨rfl, rfl⟩,
-    fun h => by simp [KStr.ofString] at h⟩
+    fun _ => ⟨rfl, rfl⟩, fun h => by simp [KStr.ofString] at h⟩
+
+theorem KStr.ofStringV_wf {bs : Bytes} (h : validUtf8 bs = true) : (KStr.ofStringV bs).WF :=
+  ⟨Nat.zero_le _, Nat.le_refl _, h, isBoundary_zero _, isBoundary_length _, fun _ => ⟨rfl, rfl⟩,
+    fun _ => ⟨rfl, rfl⟩, fun h => by simp [KStr.ofStringV] at h⟩
 
 theorem KStr.ofString_bytes (bs : Bytes) : (KStr.ofString bs).bytes = bs := by
   simp [KStr.ofString, KStr.bytes]
@@ -76,6 +81,11 @@ theorem KStr.withBounds_bytes {s t : KStr} {a b : Nat} (hw : s.WF) (h : s.withBo
     have := (hw.full hf).1
     cases h
     simp [KStr.ofSlice, this]
+  · rename_i hf
+    have := (hw.fullV hf).1
+    split at h
+    · cases h; simp [KStr.ofSlice, this]
+    · cases h
   · split at h
     · cases h; exact ⟨rfl, rfl, rfl⟩
     · cases h
@@ -105,6 +115,22 @@ theorem KStr.withBounds_eq_strGet {s : KStr} (hw : s.WF) (hf : s.form ≠ .full)
       · rintro ⟨_, h2, h3⟩; exact ⟨by omega, h2, h3⟩
     cases hform : s.form with
     | full => exact absurd hform hf
+    | fullV =>
+      have h0 := (hw.fullV hform).1
+      have hcond0 : (strGet s.buf a b).isSome = true ↔
+          (a ≤ b ∧ isBoundary s.bytes a = true ∧ isBoundary s.bytes b = true) := by
+        have := hcond; rw [h0] at this; simpa using this
+      have eqb0 : (s.buf.drop a).take (b - a) = (s.bytes.drop a).take (b - a) := by
+        have := eqb; rw [h0] at this; simpa using this
+      simp only [KStr.withBounds, hform]
+      by_cases hc : a ≤ b ∧ isBoundary s.bytes a = true ∧ isBoundary s.bytes b = true
+      · have hs : strGet s.bytes a b = some ((s.bytes.drop a).take (b - a)) := by
+          simp only [strGet]; rw [if_pos hc]
+        rw [if_pos (hcond0.mpr hc), hs]
+        exact congrArg some eqb0
+      · have : ¬((strGet s.buf a b).isSome = true) := fun h => hc (hcond0.mp h)
+        rw [if_neg this]
+        simp [strGet, if_neg hc]
     | slice =>
       have h16 := hw.slice16 hform
       simp only [KStr.withBounds, hform]
@@ -137,6 +163,11 @@ theorem KStr.withBounds_eq_strGet {s : KStr} (hw : s.WF) (hf : s.form ≠ .full)
     rw [hn]
     cases hform : s.form with
     | full => exact absurd hform hf
+    | fullV =>
+      have h0 := (hw.fullV hform).1
+      rw [h0] at hn2
+      simp only [Nat.add_zero] at hn2
+      simp [KStr.withBounds, hform, hn2]
     | slice => simp [KStr.withBounds, hform, hn2]
     | large => simp [KStr.withBounds, hform, hn2]
 
